@@ -200,6 +200,11 @@ func buildShared(seed int64, nmaps, ndocs int) *sharedObjects {
 		if len(s.cmds) == 0 {
 			continue
 		}
+		// ... plus a step nobody has observed yet (not even the signer), holding plugins whose config is
+		// present but EMPTY: an observer that canonicalises "in place" would write to it on first sight
+		pl.Steps = append(pl.Steps, &pipeline.CommandStep{Command: "fresh", Plugins: pipeline.Plugins{
+			{Source: "docker#v1", Config: map[string]any{}}, {Source: "ecr#v2", Config: []any{}}, {Source: "./local", Config: nil}},
+			Env: map[string]string{}, Matrix: &pipeline.Matrix{Setup: pipeline.MatrixSetup{"": {"a"}}, Adjustments: pipeline.MatrixAdjustments{}}})
 		s.pipe = pl
 		break
 	}
